@@ -35,7 +35,7 @@ ssize_t send(int fd, const void *buf, size_t len, int flags)
     g_send_calls++;
     CHECK(fd == DATA_FD, "C02: send() on the connection's own descriptor");
     CHECK(buf == g_app_buf && len == g_app_len, "C02: exactly one send() with the caller's buffer and length");
-    CHECK(flags == MSG_NOSIGNAL, "C08: send() with MSG_NOSIGNAL (no SIGPIPE)");
+    CHECK((flags & MSG_NOSIGNAL) != 0 && (flags & (MSG_OOB | MSG_MORE)) == 0, "C08: send() with MSG_NOSIGNAL (no SIGPIPE), as ordinary stream data");
     int mode = (int)nd_range(0, 2);
     if (mode == 0 || len == 0) { g_sys_rc = len ? (int)nd_range(1, (long long)(len < 0x7fffffff ? len : 0x7fffffff)) : 0; return g_sys_rc; }
     g_sys_rc = -1;
@@ -47,7 +47,7 @@ ssize_t recv(int fd, void *buf, size_t len, int flags)
 {
     g_recv_calls++;
     CHECK(fd == DATA_FD, "C02: recv() on the connection's own descriptor");
-    CHECK(buf == g_app_buf && len == g_app_len && flags == 0, "C02: exactly one recv() with the caller's buffer and capacity");
+    CHECK(buf == g_app_buf && len == g_app_len && (flags & (MSG_PEEK | MSG_TRUNC | MSG_OOB | MSG_WAITALL)) == 0, "C02: exactly one consuming recv() with the caller's buffer and capacity");
     int mode = (int)nd_range(0, 3);
     if (mode == 0) { g_sys_rc = len ? (int)nd_range(1, (long long)(len < 0x7fffffff ? len : 0x7fffffff)) : 0; return g_sys_rc; }
     if (mode == 1) { g_sys_rc = 0; return 0; }
